@@ -282,6 +282,9 @@ func (g *randGen) next(v *view) (string, bool) {
 			r.HStatus, r.HErr = g.handler()
 		}
 		g.follow(v, &r)
+		if g.chance(2) {
+			r.Star = true // `*` with the Session header of a live session
+		}
 	} else {
 		r.HStatus, r.HErr = g.handler()
 		if g.chance(3) {
